@@ -210,6 +210,10 @@ func genC08(t *Tape, tier string) *Scenario {
 	cs.IdleEnd = 30 * time.Second
 	sc.Conns = []ConnScript{cs}
 	cp.LogoutErr = t.Chance(1, 3)
+	if t.Chance(1, 10) {
+		// a backend whose Logout panics: one more backend panic the server has to contain
+		cp.PanicLogout = true
+	}
 	sc.BE.Conns = []ConnBackendPlan{cp}
 	sc.Strata = []string{c08Kinds[x.Kind] + "/" + x.Where}
 	return sc
@@ -358,6 +362,12 @@ func classifyC08(sc *Scenario, h *History, st *Stats) string {
 	if c.HandshakeDone {
 		st.Probes["starttls_completed"]++
 	}
+	for _, e := range h.Events {
+		if e.Kind == "Logout" && e.Panicked {
+			st.Probes["backend_panics_in_Logout"]++
+			break
+		}
+	}
 	return fmt.Sprintf("%d|%s|%v|%v|%v", x.Kind, x.Where, x.Suffix, sc.Srv.LMTP, sc.Conns[0].Steps[len(sc.Conns[0].Steps)-1].Glue)
 }
 
@@ -416,7 +426,7 @@ func init() {
 	}
 	register(&Property{
 		ID: "C08", Level: "fault_enumeration",
-		Rule:     "(a) C07's corpus with the connection cut at every octet offset (FIN; RST/half-close/stall sampled); (b) every server-initiated ending - 221 after QUIT, the fourth protocol error, an over-long line, the idle timeout, a backend panic in NewSession/Mail/Rcpt/Data, Server.Close at a drawn instant - struck at five conversation positions (before greeting ... inside a chunked transfer) and followed by every drawn suffix of 0-4 further commands in the same segment or later; (c) STARTTLS whose Logout parks while Server.Close fires. Non-trivial: the cut falls inside a transfer, or the server ended the connection; distinct by (kind, position, suffix, mode) resp. (offset, kind, conversation). Fault kinds drawn on top: the backend's Logout returns an error; the n-th reply write fails; the n-th reply write blocks (peer not reading) for 30 s, until WriteTimeout, or for ever; the idle timeout strikes in the middle of a command line. What follows the point where the server had reason to give up is never executed.",
+		Rule:     "(a) C07's corpus with the connection cut at every octet offset (FIN; RST/half-close/stall sampled); (b) every server-initiated ending - 221 after QUIT, the fourth protocol error, an over-long line, the idle timeout, a backend panic in NewSession/Mail/Rcpt/Data, Server.Close at a drawn instant - struck at five conversation positions (before greeting ... inside a chunked transfer) and followed by every drawn suffix of 0-4 further commands in the same segment or later; (c) STARTTLS whose Logout parks while Server.Close fires. Non-trivial: the cut falls inside a transfer, or the server ended the connection; distinct by (kind, position, suffix, mode) resp. (offset, kind, conversation). Fault kinds drawn on top: the backend's Logout returns an error; the n-th reply write fails; the n-th reply write blocks (peer not reading) for 30 s, until WriteTimeout, or for ever; the idle timeout strikes in the middle of a command line. What follows the point where the server had reason to give up is never executed. In a tenth of the runs the backend's Logout panics (every time it is called): the session is still logged out once, nothing crashes and no mutex stays locked.",
 		Gen:      genC08,
 		Check:    checkC08,
 		Classify: classifyC08,
@@ -450,7 +460,7 @@ func init() {
 		Real:        []string{"smtp.Server.Serve/handleConn/Close", "smtp.Conn command loop, Close, reset, handleStartTLS, panic recovery", "BDAT delivery goroutine", "crypto/tls (kind 7)", "net/textproto", "bufio"},
 		Stub:        []string{"net.Listener (SimListener)", "net.Conn (SimConn) with cut/RST/half-close/stall", "Backend/Session (SimBackend, panics and parks from the plan)", "clock (synctest)", "SMTP client (raw driver)"},
 		Assumptions: []string{"a write without a deadline issued while Conn.locker is held is reported as a connection that Server.Close can no longer end", "commands fully received before a peer disconnect may legitimately run; a final line cut before its CRLF is not judged", "callback order is the order in which callbacks began (global sequence number taken on entry)"},
-		Required:    []string{"commands_buffered_behind_the_ending", "server_close_lands_inside_NewSession", "logout_parked_during_starttls", "server_closed_connection_QUIT", "server_closed_connection_error-flood", "server_closed_connection_over-long-line", "server_closed_connection_idle-timeout", "server_closed_connection_backend-panic", "server_closed_connection_Server.Close", "server_closed_connection_STARTTLS-vs-Close", "reply_write_failed", "cut_fin", "cut_rst", "logout_returns_an_error", "read_timeout_in_the_middle_of_a_command_line", "reply_write_blocked_peer_not_reading", "blocked_write_ended_by_WriteTimeout"},
+		Required:    []string{"backend_panics_in_Logout", "commands_buffered_behind_the_ending", "server_close_lands_inside_NewSession", "logout_parked_during_starttls", "server_closed_connection_QUIT", "server_closed_connection_error-flood", "server_closed_connection_over-long-line", "server_closed_connection_idle-timeout", "server_closed_connection_backend-panic", "server_closed_connection_Server.Close", "server_closed_connection_STARTTLS-vs-Close", "reply_write_failed", "cut_fin", "cut_rst", "logout_returns_an_error", "read_timeout_in_the_middle_of_a_command_line", "reply_write_blocked_peer_not_reading", "blocked_write_ended_by_WriteTimeout"},
 		Instr:       true,
 		QuickRuns:   700, ThoroughRuns: 40000,
 	})
